@@ -264,8 +264,9 @@ PLAIN_VALUES: T.List[T.Any] = ['v', 'foo', 'bar baz', '"str"', '1.2.3', '', '', 
                                'a\nb', 0, 1, -1, 42, -7, 10 ** 12, True, False]
 SPECIAL_VALUES: T.List[T.Any] = ['@B@', '@U@', '${B}', '\\@', '@', 'a@b', '\\\\@B@', '\\@B\\@', '@A@@B@', '\\', '@@', '${', '}',
                                  '#mesondefine A', 'x @var1@ y', '\\\\', '$B', '@A', 'OFF', 'no', '0', 'X-NOTFOUND']
-STATIC_FRAGS = ['@', '@@', '$', '{', '}', '${', '${}', '#', '\\', '\\\\', ' ', '"', 'text', 'é', '@ @', 'user@example.com, x@y.org',
-                '${${A}}', '@A.b@', '${A B}', '@é@', '\t', '/*c*/', '=', M1]
+STATIC_FRAGS = ['@', '@', '@@', '$', '$', '{', '}', '}', '#', '\\', '\\\\', ' ', ' ', '"', 'text', 'é', '@ @', 'user@example.com, x@y.org',
+                '\t', '/*c*/', '=', ';', M1, M1, M1,
+                '${', '${}', '${${A}}', '@A.b@', '${A B}', '@é@']
 EOLS = ['\n'] * 6 + ['\r\n'] * 3 + ['\r']
 
 
@@ -279,6 +280,10 @@ def frag_for(kind: int, n: str, k: int) -> str:
 
 
 N_FRAG_KINDS = 25
+#               @n@ x3      \@n\@ @n n@ ${n} x2  $n \${n} $${n} {n} ${n  @n n@ @n@n@ bs@ bs@n@ bs@n\@ bs@n @n bs@ @n@@n@ ${n}${n} @${n}@ "@n@" bs${n}
+_FRAG_W = [6, 6, 6,  5,  2,  2,  6, 6,     2,  3,    2,    2,  1,  2,    3,    4,  6,    5,     3,   3,     2,     2,       2,     3,    3]
+FRAG_POOL = [i for i, w in enumerate(_FRAG_W) for _ in range(w)]
+assert len(_FRAG_W) == N_FRAG_KINDS
 
 
 def directive_for(fmt: str, shape: int, n: str, ind: str, sep: str, trail: str, rest: str) -> str:
@@ -298,6 +303,10 @@ def directive_for(fmt: str, shape: int, n: str, ind: str, sep: str, trail: str, 
 
 
 N_DIR_SHAPES = 14
+# meson: 0-4 well-formed, 5 extra tokens (error), 6 no token, 7 glued, 8 "# mesondefine", 9 mid-line, 10-12 foreign (error), 13 mid-line foreign
+# cmake: 0-6 well-formed (5,6 = 01), 7 "# cmakedefine", 8/9 no name, 10 blank runs, 11 bare key, 12 01+text, 13 foreign (error)
+_DIR_W = {'meson': [8, 6, 6, 6, 6, 2, 1, 1, 2, 2, 1, 1, 1, 1], 'cmake': [8, 6, 8, 8, 6, 5, 3, 1, 1, 1, 1, 1, 1, 2]}
+DIR_POOL = {k: [i for i, w in enumerate(v) for _ in range(w)] for k, v in _DIR_W.items()}
 INDENTS = ['', '', '', ' ', '\t', '  ']
 SEPS = [' ', ' ', ' ', '\t', '  ']
 TRAILS = ['', '', '', ' ', '\t', '  ']
@@ -319,20 +328,24 @@ def gen_case(rnd: random.Random, fmt: str) -> dict:
     if rnd.random() < 0.3:
         data['E'] = ''
     style = rnd.choice(['lf', 'lf', 'crlf', 'cr', 'mixed', 'mixed'])
+    sepp = 0.0 if fmt == 'meson' else 0.6    # cmake formats: keep most placeholders apart (known finding: ...-after-empty-value-skipped)
     frags: T.List[str] = []
     nlines = rnd.randint(1, 5)
     for li in range(nlines):
         r = rnd.random()
         if r < 0.3:
-            rest = ' '.join(frag_for(rnd.randrange(N_FRAG_KINDS), rnd.choice(NAMES), rnd.randint(1, 5))
+            rest = ' '.join(frag_for(rnd.choice(FRAG_POOL), rnd.choice(NAMES), rnd.randint(1, 5))
                             for _ in range(rnd.randint(1, 3))) if rnd.random() < 0.8 else 'x'
-            frags.append(directive_for(fmt, rnd.randrange(N_DIR_SHAPES), rnd.choice(NAMES[:12] if rnd.random() < 0.9 else NAMES),
+            frags.append(directive_for(fmt, rnd.choice(DIR_POOL['meson' if fmt == 'meson' else 'cmake']),
+                                       rnd.choice(NAMES[:12] if rnd.random() < 0.9 else NAMES),
                                        rnd.choice(INDENTS), rnd.choice(SEPS), rnd.choice(TRAILS), rest))
         else:
             for _ in range(rnd.randint(0, 6)):
                 q = rnd.random()
+                if sepp and frags and rnd.random() < sepp:
+                    frags.append(rnd.choice(' ;,"='))
                 if q < 0.55:
-                    frags.append(frag_for(rnd.randrange(N_FRAG_KINDS), rnd.choice(NAMES), rnd.randint(1, 5)))
+                    frags.append(frag_for(rnd.choice(FRAG_POOL), rnd.choice(NAMES), rnd.randint(1, 5)))
                 elif q < 0.7:
                     frags.append(rnd.choice(STATIC_FRAGS))
                 elif q < 0.85:
@@ -358,15 +371,16 @@ def case_strategy(fmt: str) -> T.Any:
     data = st.dictionaries(st.sampled_from([n for n in NAMES if n not in ('U', 'UNDEF')]), value, max_size=7)
     chars = st.characters(blacklist_categories=['Cs'])
     inline = st.one_of(
-        st.builds(frag_for, st.integers(0, N_FRAG_KINDS - 1), name, st.integers(1, 5)),
-        st.builds(frag_for, st.integers(0, N_FRAG_KINDS - 1), name, st.integers(1, 5)),
+        st.builds(frag_for, st.sampled_from(FRAG_POOL), name, st.integers(1, 5)),
+        st.builds(frag_for, st.sampled_from(FRAG_POOL), name, st.integers(1, 5)),
+        st.builds(frag_for, st.sampled_from(FRAG_POOL), name, st.integers(1, 5)).map(lambda x: x + ' '),
         st.sampled_from(STATIC_FRAGS),
         st.text(alphabet=FILLER_ALPHA, min_size=1, max_size=6),
         st.text(alphabet=SPECIAL_ALPHA, min_size=1, max_size=6),
         st.text(alphabet=chars, max_size=5),
     )
-    rest = st.lists(st.builds(frag_for, st.integers(0, N_FRAG_KINDS - 1), name, st.integers(1, 5)), min_size=1, max_size=3).map(' '.join)
-    directive = st.builds(directive_for, st.just(fmt), st.integers(0, N_DIR_SHAPES - 1), name, st.sampled_from(INDENTS),
+    rest = st.lists(st.builds(frag_for, st.sampled_from(FRAG_POOL), name, st.integers(1, 5)), min_size=1, max_size=3).map(' '.join)
+    directive = st.builds(directive_for, st.just(fmt), st.sampled_from(DIR_POOL['meson' if fmt == 'meson' else 'cmake']), name, st.sampled_from(INDENTS),
                           st.sampled_from(SEPS), st.sampled_from(TRAILS), rest)
     eol = st.sampled_from(EOLS)
     line = st.one_of(st.lists(inline, max_size=5), st.lists(inline, max_size=5), directive.map(lambda d: [d]))
@@ -1002,10 +1016,10 @@ def run(ctx: Ctx) -> None:
                                         'everything else is sampled')
     ctx.exhaustive = False
     # 3. seeded bulk generator
-    nb = ctx.n(30000, 500000)
+    nb = ctx.n(25000, 400000)
     pmap(ctx, _bulk_shard, [(s, nb) for s in shard_seeds(ctx, 16)])
     # 4. Hypothesis: fragment grammar + arbitrary text
-    nh = ctx.n(1500, 30000)
+    nh = ctx.n(1000, 20000)
     seeds = shard_seeds(ctx, 48)
     sh = []
     for i, s in enumerate(seeds):
